@@ -133,7 +133,8 @@ def auto_responder(state1=None, shutter=None, thermostat=None, schedule_records=
         if kind == "get_state":
             return replies.state1(state1 or {"state": "ON", "power": 2600, "time_left": 5400, "time_on": 60, "auto_shutdown": 10800})
         if kind == "get_state2":
-            if family == "shutter":
+            fam = family(conn) if callable(family) else family
+            if fam == "shutter":
                 return replies.shutter(shutter or {"position": 50, "direction": "STOP"})
             return replies.thermostat(thermostat or {"temp_tenths": 281, "state": "ON", "mode": "COOL", "target": 24,
                                                      "fan": "LOW", "swing": "OFF", "remote_id": "ELEC7001"})
@@ -147,15 +148,19 @@ def auto_responder(state1=None, shutter=None, thermostat=None, schedule_records=
 class WireSpy:
     """Wraps the connected API object's StreamWriter.write: the exact byte strings the client writes."""
 
-    def __init__(self, api) -> None:
+    def __init__(self, api, on_write: Optional[Callable] = None) -> None:
         self.api = api
         self.writes: List[bytes] = []
+        self.on_write = on_write
         writer = api._writer
         original = writer.write
 
         def spy(data):
             self.writes.append(bytes(data))
-            return original(data)
+            out = original(data)
+            if self.on_write is not None:
+                self.on_write(self, bytes(data))
+            return out
 
         writer.write = spy
 
